@@ -16,6 +16,7 @@ EXPLANATION = (
     "R8: the bulk step of nth() feeds exactly the skills next() feeds and under the same private conditions (a container's forwarding process() is inlined; guards shared by every feed of a function — position, loop — are factored out). "
     "R9: the n >= len() branch of nth() leaves the calculator exhausted: it drains with next(), or it sets the position to exactly the end len() measures (linear forms) and next() decides exhaustion from that position rather than from a separate cursor. "
     "R10: dimension check — an integer parameter of a private helper called from the gradual calculators is asked either with positions (self.idx-based, lengths) or with step counts (the caller's n, len(), distances) at all call sites, never both (a step count equals a position only for a step that starts at 0). "
+    "R11: every alternative of a gradual performance nth() result is derived from the inner difficulty iterator's nth() — it cannot answer None on a condition of its own that len() does not know. "
     "nth(n) == n+1 x next, len == remaining, behaviour after exhaustion are arithmetic over runtime state: NOT decided.")
 
 GD = 'any::difficulty::gradual::GradualDifficulty'
